@@ -605,8 +605,10 @@ func c19R4(p *Prog, r *Report) {
 						continue
 					}
 					for _, s := range b.Succs {
-						if !l.Contains(s) && len(s.Succs) > 0 {
-							early = true // leaves the loop to code that continues (break), not to a return
+						// leaving the loop from its body is fine only as the rejection itself; a break
+						// to code that continues, or to a success return, skips the remaining cards
+						if !l.Contains(s) && !(len(s.Instrs) > 0 && isErrReturn(s.Instrs[len(s.Instrs)-1])) {
+							early = true
 						}
 					}
 				}
